@@ -89,6 +89,17 @@ def make_case(rng, with_faults):
         shape["obj"] = "real:" + name
         allsec, code = _sections_of(elf)
         meta = [{"name": s, "raw": False, "data": s not in code} for s in allsec]
+    elif r0 < 0.122:
+        # many one-byte instructions: the listing is several MB and tens of times the size of the object;
+        # the rule sits at the very end
+        nd = rng.choice([30000, 62000])
+        src, meta = gen.gen_dense_source(rng, nd)
+        elf = gen.assemble(src)
+        if elf is None:
+            return None
+        shape["obj"] = f"as:dense:{nd}"
+        shape["dense"] = True
+        allsec, code = [".text"], [".text"]
     elif r0 < 0.13:
         # a big object: tens of thousands of instructions, and a pattern that straddles a "round" instruction index
         nbig = rng.choice([1100, 2100, 4200, 8300, 16500, 17000, 33000])
@@ -217,6 +228,12 @@ def make_case(rng, with_faults):
             big_doc = {"pattern": items}
             if sections is not None:
                 big_doc = {"config": {"sections": list(sections)}, **big_doc}
+    if shape.get("dense") and rc == 0:
+        big_doc = {"pattern": [{"xor": ["%eax", "%eax"]}, "mov", "cltq"]}
+        if sections is not None:
+            big_doc = {"config": {"sections": list(sections)}, **big_doc}
+        shape["big"] = True
+        dec = []
     built = rules.build_found_rule(rng, dec, features={f for f in ("or", "not", "times", "cfg_flags", "cfg_style", "cfg_plugins", "capture") if rng.random() < 0.35},
                                    sections=sections, binary=True) if len([d for d in dec if d[1]]) >= 3 else None
     if shape.get("big") and rc == 0 and "big_doc" in locals():
@@ -229,6 +246,9 @@ def make_case(rng, with_faults):
             doc = {"config": {"sections": list(sections)}, **doc}
     if sections is None and "config" in doc:
         doc["config"].pop("sections", None)
+    if rng.random() < 0.06:
+        doc.setdefault("config", {})["style"] = "intel"
+        shape["style"] = "intel"
     if rng.random() < 0.3:
         # an address range in the rule: tags branch operands on both routes, must not change what is disassembled
         lo = rng.choice([0x0, 0x4, 0x10, 0x400000])
@@ -330,7 +350,9 @@ def _rule_sections(files, rel):
         return False, None, None
     if sections is not None and (not isinstance(sections, list) or not all(isinstance(s, str) for s in sections)):
         return False, None, None
-    if style not in (None, "att"):
+    # C15 is read literally: the reference is the att text whatever `style` says (on this tree `style: intel`
+    # is inert because objdump ignores `-M Intel`, so the statement holds for such rules too)
+    if style not in (None, "att", "intel"):
         return False, None, None
     return True, sections, style
 
